@@ -284,6 +284,7 @@ class Check:
                 stubs=self.stubs,
                 outside_claim=self.outside,
                 shadow_loader=self.shadow_stats,
+                shadow_validation=SHADOW_VALIDATION,
                 evaluations=max(self.queries, 1),
                 distinct_nontrivial=max(n_obl, 0),
                 rule=rule or 'one obligation = one (path, assertion) pair decided by the solver for all '
@@ -312,10 +313,49 @@ class Check:
         return EXIT_OK
 
 
+SHADOW_VALIDATION = None
+
+
+def validate_shadow():
+    """Translation validation of the shadow loader (DESIGN 2.1): the shadow modules, run on CONCRETE inputs,
+    must print byte-identical reports to the real package for the option files of /repo/test (the two
+    multi-minute ones and the one that prints wall-clock timings are skipped).  A mismatch is a harness
+    error: nothing a shadow run says would be believed."""
+    global SHADOW_VALIDATION
+    import contextlib
+    import glob
+    import io
+    import warnings
+    sh = symx.load()
+    mm = symx.real_mininec()
+
+    def run(main_, argv):
+        out, err = io.StringIO(), io.StringIO()
+        try:
+            with contextlib.redirect_stdout(out), contextlib.redirect_stderr(err), warnings.catch_warnings():
+                warnings.simplefilter('ignore')
+                rc = main_(list(argv), f_err=err)
+        except SystemExit as e:
+            rc = 'exit %s' % (e.code,)
+        return rc, out.getvalue(), err.getvalue()
+    files = [f for f in sorted(glob.glob(os.path.join(symx.shadow.REPO, 'test', '*.pym')))
+             if not os.path.basename(f).startswith(('inverted-v', 'vloop20-time'))]
+    bad = []
+    for f in files:
+        argv = pym_argv(f)
+        if run(mm.main, argv) != run(sh.mininec.main, argv):
+            bad.append(os.path.basename(f))
+    SHADOW_VALIDATION = dict(option_files=len(files), byte_identical=len(files) - len(bad), differing=bad)
+    if bad:
+        raise symx.HarnessError('shadow modules and real package print different reports for %s' % bad)
+
+
 def run_check(pid, main):
     """Wrap a check's main(): harness errors give exit code 2 and no verdict."""
     args = parse_args(pid)
     try:
+        if not args.replay:
+            validate_shadow()
         rc = main(args)
     except symx.HarnessError as e:
         traceback.print_exc()
